@@ -12,8 +12,8 @@ import (
 
 func init() { extractors = append(extractors, extractSmtp) }
 
-// caseLabels: the string labels of every `case` of the switch statements on `tag` inside n, in source order.
-func caseLabels(n ast.Node, tag string) [][]string {
+// smtpCaseLabels: the string labels of every `case` of the switch statements on `tag` inside n, in source order.
+func smtpCaseLabels(n ast.Node, tag string) [][]string {
 	var res [][]string
 	if n == nil || isNilNode(n) {
 		return res
@@ -44,7 +44,7 @@ func caseLabels(n ast.Node, tag string) [][]string {
 	return res
 }
 
-func listOfLists(l [][]string) string {
+func smtpListOfLists(l [][]string) string {
 	p := []string{}
 	for _, x := range l {
 		p = append(p, strList(x))
@@ -52,8 +52,8 @@ func listOfLists(l [][]string) string {
 	return "[" + strings.Join(p, ", ") + "]"
 }
 
-// sliceExprs: every index / slice expression inside n as source text, sorted and de-duplicated.
-func sliceExprs(n ast.Node) []string {
+// smtpSliceExprs: every index / slice expression inside n as source text, sorted and de-duplicated.
+func smtpSliceExprs(n ast.Node) []string {
 	set := map[string]bool{}
 	if n == nil || isNilNode(n) {
 		return nil
@@ -75,7 +75,7 @@ func sliceExprs(n ast.Node) []string {
 	return res
 }
 
-func containsCall(n ast.Node, fun string) bool {
+func smtpContainsCall(n ast.Node, fun string) bool {
 	found := false
 	if n == nil || isNilNode(n) {
 		return false
@@ -120,11 +120,11 @@ func extractSmtp() {
 	}
 	g.def("commands", "List String", strList(cmds), "keys of the `commands` map (value true), in source order")
 	ss := fn(f, "Server", "startSession")
-	g.def("anyStateCases", "List (List String)", listOfLists(caseLabels(ss, "cmd")), "case labels of the any-state `switch cmd` in startSession")
-	g.def("greetCases", "List (List String)", listOfLists(caseLabels(fn(f, "Session", "greetHandler"), "cmd")), "")
-	g.def("readyCases", "List (List String)", listOfLists(caseLabels(fn(f, "Session", "readyHandler"), "cmd")), "")
-	g.def("mailCases", "List (List String)", listOfLists(caseLabels(fn(f, "Session", "mailHandler"), "cmd")), "")
-	g.def("authCases", "List (List String)", listOfLists(caseLabels(fn(f, "Session", "readyHandler"), "authMethod")), "")
+	g.def("anyStateCases", "List (List String)", smtpListOfLists(smtpCaseLabels(ss, "cmd")), "case labels of the any-state `switch cmd` in startSession")
+	g.def("greetCases", "List (List String)", smtpListOfLists(smtpCaseLabels(fn(f, "Session", "greetHandler"), "cmd")), "")
+	g.def("readyCases", "List (List String)", smtpListOfLists(smtpCaseLabels(fn(f, "Session", "readyHandler"), "cmd")), "")
+	g.def("mailCases", "List (List String)", smtpListOfLists(smtpCaseLabels(fn(f, "Session", "mailHandler"), "cmd")), "")
+	g.def("authCases", "List (List String)", smtpListOfLists(smtpCaseLabels(fn(f, "Session", "readyHandler"), "authMethod")), "")
 	// reset(): does it keep GREET?
 	rs := fn(f, "Session", "reset")
 	resetFact := "unknown"
@@ -215,7 +215,7 @@ func extractSmtp() {
 	}
 	g.def("fromRegex", "Option String", optStr(fromRe), "source text of fromRegex")
 	g.def("argsRegex", "Option String", optStr(argsRe), "source text of the parseArgs expression")
-	g.def("sliceSites", "List String", strList(sliceExprs(f)), "every index / slice expression of handler.go")
+	g.def("sliceSites", "List String", strList(smtpSliceExprs(f)), "every index / slice expression of handler.go")
 	g.def("sessionMentionsContext", "Bool", map[bool]string{true: "true", false: "false"}[f != nil && strings.Contains(src(f), "context.")], "does handler.go mention a context (sessions must not read the cancellation)")
 	// manager.Deliver
 	mf := parse("pkg/message/manager.go")
